@@ -62,7 +62,7 @@ def run(ctx, eng):
         if cm.show0(a[0]) != 'len(data)':
             bad.append('tracked length is %s, expected len(data) (padding '
                        'does not count)' % cm.show0(a[0]))
-        if a[1] != ('p', 'end_stream'):
+        if len(a) < 2 or a[1] != ('p', 'end_stream'):
             bad.append('completion flag is not end_stream')
         st = cm.process_inputs(p)
         es = [ev for nm, ev, _ in st if nm == 'RECV_END_STREAM']
